@@ -22,23 +22,27 @@
 // A second textual copy of the library's own EigenValue.h is compiled under another class name with one hook injected
 // at the head of every step of the double-QR sweep of hqr2 (through the identifier `notlast`, declared there). The hook
 // sees the condition under which the library leaves the sweep without doing anything (first step of the sweep and
-// x == 0.0, x being the shift H(n,n) at that point). 32 consecutive iterations left this way prove non-termination:
-// H is unchanged by such an iteration and the two ad-hoc shifts (iterations 10 and 30) are behind.
+// x == 0.0, x being the shift H(n,n) at that point). 32 consecutive iterations left this way with a bit-identical H
+// prove non-termination: the two ad-hoc shifts (iterations 10 and 30) are behind and nothing can change any more.
 // The monitor is not an oracle; it converts an endless loop into an ordinary failing case (usable in ENUM laws too).
 namespace c06probe {
 struct Stall {}; struct NoConvergence {};
-static long consecutive = 0, total = 0;
-inline void reset() { consecutive = 0; total = 0; }
-inline int hook(bool sweepSkipped) {
+static long consecutive = 0, total = 0; static uint64_t lastH = 0;
+inline void reset() { consecutive = 0; total = 0; lastH = 0; }
+template <class M> inline int hook(bool sweepSkipped, const M& H) {
   if (++total > 4000000) throw NoConvergence();
   if (!sweepSkipped) { consecutive = 0; return 0; }
+  uint64_t h = 1469598103934665603ULL;  // the skipped iterations must really leave H bit-identical
+  for (size_t i = 0; i < H.getNumberOfRows(); ++i) for (size_t j = 0; j < H.getNumberOfColumns(); ++j) { double v = H(i, j); h = ::vf::fnv1a(&v, sizeof v, h); }
+  if (consecutive > 0 && h != lastH) consecutive = 0;
+  lastH = h;
   if (++consecutive >= 32) throw Stall();
   return 1;
 }
 }  // namespace c06probe
 #undef BPP_NUMERIC_MATRIX_EIGENVALUE_H
 #define EigenValue C06ProbedEigenValue
-#define notlast c06_hook_ = ::c06probe::hook(k == m && x == 0.0), c06_notlast_
+#define notlast c06_hook_ = ::c06probe::hook(k == m && x == 0.0, H_), c06_notlast_
 #include <Bpp/Numeric/Matrix/EigenValue.h>
 #undef notlast
 #undef EigenValue
@@ -510,7 +514,7 @@ void nontrivial(vf::Ctx& c, const Case& cs, const Outcome& o) { c.nt((!o.sym && 
 }  // namespace
 
 // ------------------------------------------------------------------ L1: every generator class, every storage class
-LAW(L1_decomposition, RC, 20000, 600000, 420, "non-symmetric with >=1 complex pair, or n>=3, or graded, or repeated eigenvalue") {
+LAW(L1_decomposition, RC, 20000, 600000, 420, "non-symmetric with >=1 complex pair, or n>=3, or graded, or repeated eigenvalue", 30, true) {
   Case cs; cs.n = c.irange(1, 12); cs.storage = static_cast<int>(c.below(3));
   switch (c.weighted({1, 4, 2, 2, 3, 1, 4, 3})) {
     case 0: genSpecial(c, cs); break;
@@ -531,7 +535,7 @@ LAW(L1_decomposition, RC, 20000, 600000, 420, "non-symmetric with >=1 complex pa
 }
 
 // ------------------------------------------------------------------ L2: symmetric input (and symmetric input broken in one cell)
-LAW(L2_symmetric, RC, 6000, 200000, 200, "n>=3, graded or repeated eigenvalue (symmetric), or symmetry broken in one cell") {
+LAW(L2_symmetric, RC, 6000, 200000, 200, "n>=3, graded or repeated eigenvalue (symmetric), or symmetry broken in one cell", 30, true) {
   Case cs; cs.n = c.irange(1, 12); cs.storage = static_cast<int>(c.below(3));
   genSymmetricStructured(c, cs);
   bool broken = false;
@@ -544,7 +548,7 @@ LAW(L2_symmetric, RC, 6000, 200000, 200, "n>=3, graded or repeated eigenvalue (s
 }
 
 // ------------------------------------------------------------------ L6: all matrices over {0,1,-1} up to 3x3
-LAW(L6_small_enum, ENUM, 0, 0, 0, "non-symmetric with >=1 complex pair, or n>=3, or repeated eigenvalue") {
+LAW(L6_small_enum, ENUM, 0, 0, 0, "non-symmetric with >=1 complex pair, or n>=3, or repeated eigenvalue", 30, true) {
   Case cs; cs.n = c.irange(1, 3); cs.A = zeros(cs.n); cs.kind = "enum{0,1,-1}";
   unsigned h = 0;
   for (int i = 0; i < cs.n; ++i) for (int j = 0; j < cs.n; ++j) { int v = static_cast<int>(c.zig(1)); cs.A[i][j] = v; h = h * 3 + static_cast<unsigned>(v + 1); }
@@ -604,7 +608,7 @@ void genRealDiag(vf::Ctx& c, Case& cs, int lamMax8) {
 }
 }  // namespace
 
-LAW(L3_exp, RC, 4000, 100000, 120, "n>=3 or repeated eigenvalue or non-symmetric") {
+LAW(L3_exp, RC, 4000, 100000, 220, "n>=3 or repeated eigenvalue or non-symmetric", 30, true) {
   Case cs; genRealDiag(c, cs, 32);
   int k2 = c.oneIn(3) ? -c.irange(1, 12) : 0;  // A 2^k2 : exp close to the identity
   if (k2) { for (auto& r : cs.A) for (double& x : r) x = std::ldexp(x, k2); for (LD& l : cs.lambda) l = ldexpl(l, k2); cs.kind += "*2^" + to_string(k2); }
@@ -630,7 +634,7 @@ LAW(L3_exp, RC, 4000, 100000, 120, "n>=3 or repeated eigenvalue or non-symmetric
   c.nt(cs.n >= 3 || cs.repeated || !exactlySymmetric(cs.A));
 }
 
-LAW(L4_pow_integer, RC, 4000, 100000, 120, "exponent >= 2 and (n>=3 or repeated eigenvalue or non-symmetric)") {
+LAW(L4_pow_integer, RC, 4000, 100000, 220, "exponent >= 2 and (n>=3 or repeated eigenvalue or non-symmetric)", 30, true) {
   Case cs; genRealDiag(c, cs, 32);
   int k = c.irange(0, 6); int ost = static_cast<int>(c.below(3));
   describe(c, cs); c.desc << " pow(A," << k << ".0) -> " << STORAGE[ost];
